@@ -55,3 +55,23 @@ Proof.
   exact (evp_app K T rO rI radd rmul rsub ropp RT inj pw rho _ _).
 Qed.
 Print Assumptions c10_model_entry.
+
+(* the formal derivative with which the model stands in for sympy.diff on the nonlinear part is a
+   derivative: for polynomials whose monomials mention the variable at most once (canonical terms) *)
+From OdeVerif Require Import Proofs.DPolyP.
+Theorem c10_formal_derivative :
+  forall (K T : Type) (rO rI : T) (radd rmul rsub : T -> T -> T) (ropp : T -> T),
+    ring_theory rO rI radd rmul rsub ropp (@eq T) ->
+  forall (inj : K -> T) (pw : T -> Z -> T) (rho : atom -> T) (kscale : Z -> K -> K) (zinj : Z -> T),
+    (forall e c, inj (kscale e c) = rmul (zinj e) (inj c)) -> (forall a, pw a 0%Z = rI) ->
+  forall (x : atom) (d : T -> T),
+    (forall a b, d (radd a b) = radd (d a) (d b)) -> (forall a b, d (rmul a b) = radd (rmul (d a) b) (rmul a (d b))) ->
+    d rO = rO -> d rI = rO -> (forall c, d (inj c) = rO) -> d (rho x) = rI -> (forall a, a <> x -> d (rho a) = rO) ->
+    (forall a e, d (pw a e) = rmul (rmul (zinj e) (pw a (e - 1)%Z)) (d a)) ->
+  forall p : poly K, Forall (fun t => occurs_once x (pows t)) p ->
+    ev_poly K T rO rI radd rmul inj pw rho (dpoly K kscale p x) = d (ev_poly K T rO rI radd rmul inj pw rho p).
+Proof.
+  intros K T rO rI radd rmul rsub ropp RT inj pw rho kscale zinj H1 H2 x d D1 D2 D3 D4 D5 D6 D7 D8 p Hp.
+  exact (dpoly_is_derivative K T rO rI radd rmul rsub ropp RT inj pw rho kscale zinj H1 H2 x d D1 D2 D3 D4 D5 D6 D7 D8 p Hp).
+Qed.
+Print Assumptions c10_formal_derivative.
